@@ -41,6 +41,7 @@ pub fn execute_scenario_with(sc: &Scenario, class_prefix: &str, advert_class: Op
     apply_store_cfg(&storage, &sc.store);
     let st2 = storage.clone();
     let mut sig = Fnv::new();
+    let abandoned_total = std::rc::Rc::new(std::cell::RefCell::new(0u64));
     let res: Result<(), String> = rt.block_on(async {
         let node = Node::boot(st2).await?;
         let mut named: BTreeSet<String> = sc.keyspaces.iter().cloned().collect();
@@ -67,6 +68,7 @@ pub fn execute_scenario_with(sc: &Scenario, class_prefix: &str, advert_class: Op
             }
             let local = tokio::task::LocalSet::new();
             let results = std::rc::Rc::new(std::cell::RefCell::new(Vec::new()));
+            let abandoned = abandoned_total.clone();
             // advertised-state arm: peers fetch the keyspace state (GetState through the real
             // ReplicationService handler) while the group's requests are in progress; every reply
             // is kept as (change timestamp sent with it, listing of the state sent)
@@ -103,12 +105,23 @@ pub fn execute_scenario_with(sc: &Scenario, class_prefix: &str, advert_class: Op
                 let node = node.clone();
                 let r = r.clone();
                 let results = results.clone();
+                let abandoned = abandoned.clone();
                 local.spawn_local(async move {
                     if r.delay_ms > 0 {
                         tokio::time::sleep(std::time::Duration::from_millis(r.delay_ms)).await;
                     }
                     let tag = format!("g{gi}r{ri}");
-                    let res = issue(&node, &tag, &r).await;
+                    let res = match r.give_up_after_polls {
+                        None => issue(&node, &tag, &r).await,
+                        Some(k) => match GiveUpAfterPolls::new(issue(&node, &tag, &r), k).await {
+                            Some(res) => res,
+                            None => {
+                                // abandoned half-way: nothing was acknowledged to anybody
+                                *abandoned.borrow_mut() += 1;
+                                Ok(false)
+                            },
+                        },
+                    };
                     results.borrow_mut().push((ri, res));
                 });
             }
@@ -195,6 +208,7 @@ pub fn execute_scenario_with(sc: &Scenario, class_prefix: &str, advert_class: Op
     }
     let st = storage.st.lock();
     out.fault_n("storage_call_failed", st.faults_fired);
+    out.fault_n("request_abandoned_half_way", *abandoned_total.borrow());
     let partial = st.calls.iter().filter(|c| !c.ok && c.applied > 0 && c.applied < c.items.len()).count() as u64;
     out.fault_n("bulk_call_failed_partway", partial);
     if st.latency_max_ms > 0 {
@@ -316,7 +330,7 @@ impl Check for C02 {
             let t1 = base_ms - 3 * 3_600_000;
             let n = rng.gen_range(1_001..1_400u64);
             let item = |id: u64, t: u64| Item { id, t, c: 0, node: origin };
-            let req = |kind: &str, items: Vec<Item>, source: usize| Req { kind: kind.to_string(), ks: "ks0".to_string(), route: "actor".to_string(), source, items, del_items: vec![], delay_ms: 0 };
+            let req = |kind: &str, items: Vec<Item>, source: usize| Req { kind: kind.to_string(), ks: "ks0".to_string(), route: "actor".to_string(), source, items, del_items: vec![], delay_ms: 0, give_up_after_polls: None };
             let events = vec![
                 vec![req("multi_set", (0..5).map(|i| item(i, t1 - 60_000)).collect(), 0)],
                 vec![req("multi_del", (0..n).map(|i| item(i, t1)).collect(), 0)],
@@ -350,7 +364,18 @@ impl Check for C02 {
         };
         let groups = rng.gen_range(3..=30);
         let concurrent_p = if rng.gen_bool(0.5) { 0.0 } else { 0.4 };
-        let events = gen_history(&mut rng, groups, &cfg, concurrent_p);
+        let mut events = gen_history(&mut rng, groups, &cfg, concurrent_p);
+        // a quarter of the histories: requesters that go away half-way (a closed connection makes
+        // the RPC server drop the handler's future at whatever await point it has reached)
+        if rng.gen_bool(0.25) {
+            for g in events.iter_mut() {
+                for r in g.iter_mut() {
+                    if r.kind != "idle_hour" && rng.gen_bool(0.3) {
+                        r.give_up_after_polls = Some(rng.gen_range(1..=10));
+                    }
+                }
+            }
+        }
         let mut store = StoreCfg::default();
         if rng.gen_bool(0.5) {
             store.latency_max_ms = rng.gen_range(1..20);
